@@ -25,6 +25,8 @@ THEOREMS = [
     'C15.refuse_absent_site', 'C15.refuse_ambiguous_site', 'C15.refuse_occupied_interstitial', 'C15.refuse_same_type',
     'C15.refuse_index_out_of_range', 'C15.refuse_both_or_neither', 'C15.refusals_propagate',
     'C15.point_dispatch', 'C15.input_unchanged',
+    'C15.atol_resolution', 'C15.point_atol_passthrough', 'C15.within_iff', 'C15.within_tie', 'C15.within_zero_tol',
+    'C15.within_mono', 'C15.zero_tol_offsite', 'C15.symbols_masses_kept',
 ]
 PARTIAL = {
     'periodic image beyond the adjacent cells': 'pos_eq_index_selection is proved for a position that is the atom '
@@ -34,20 +36,29 @@ PARTIAL = {
 }
 RULE = ('random systems: 1-8 atoms on a 1/8 grid of box-relative coordinates in cubic / orthorhombic / tilted '
         '(triangular) / general triclinic dyadic cells with zero or non-zero origin, any pbc, 1-3 atom types with gaps, '
-        'symbols shorter/equal/longer than natypes, extra properties of float/int/bool dtype and trailing shapes (), (3,), '
-        '(3,3), (2,2,2), with or without an existing old_id (placed before or after the other properties), sometimes a close '
-        'pair of atoms; histories of 1-4 insertions; each insertion: any of the four generators, called directly or through '
-        'point(), site by index (every value in [-n-2, n+1]) / Cartesian pos / box-relative pos / both / neither, '
-        'pos = atom position + optional image shift (also along non-periodic directions and two cells away) + offset '
-        '(none, exact tie |offset| = atol, 0.5 atol, 1.5 atol), atol in {default, 1/16, 1/4, 1, 0, -1/8}, kwargs any subset of '
-        'atype / old_id / the extra properties / an unknown key, dispatcher assertion combinations and an invalid ptd_type. '
+        'symbols shorter/equal/longer than natypes, per-type masses (absent / partial / with missing entries), extra '
+        'properties of float/int/bool dtype and trailing shapes (), (3,), (3,3), (2,2,2), with or without an existing old_id '
+        '(placed before or after the other properties), sometimes a close pair of atoms; histories of 1-4 insertions; each '
+        'insertion: any of the four generators, called directly or through point() (keywords or the documented positional '
+        'order, ptd_type omitted for its default), site by index (every value in [-n-2, n+1], Python or numpy integer) / '
+        'Cartesian pos / box-relative pos / both / neither, pos = atom position + optional image shift (also along '
+        'non-periodic directions and two cells away) + an offset chosen INDEPENDENTLY of the tolerance (none, along one '
+        'axis, along a face diagonal (3,4,0), along a body diagonal (1,2,2)/(2,3,6)/(1,4,8); exact length 2^-12 .. 1, on '
+        'both sides of the default 0.01), and a tolerance chosen around that offset: None (default), 0, 1e-12, exactly the '
+        'offset (tie), offset -/+ 2^-12, half, double, negative, 100 (ambiguous), 1.25 x distance to another atom '
+        '(ambiguous), given as float / int / numpy.float64 / numpy.float32 / numpy.int64; a systematic sweep runs every '
+        'tolerance candidate for every generator x offset kind on independent requests; kwargs any subset of atype / '
+        'old_id / the extra properties / an unknown key, dispatcher assertion combinations and an invalid ptd_type. '
         'distinct = distinct (system line, op line); non-trivial = the insertion is accepted or refused for a reason other '
         'than the argument-combination checks')
 ASSUMPTIONS = [
     'IEEE double arithmetic of numpy/Cython is exact on the dyadic inputs generated (<= 12 fractional bits, |x| < 2^8): '
     'site selection and positions are compared exactly there; with box-relative input in a cell whose inverse is not dyadic '
     'the new positions are compared to 1e-12 relative and cases whose distance is within 1e-9 of atol are exempt',
-    'np.linalg.norm / np.isclose(d, 0, atol) decide d == 0 or d <= atol; modelled on squares (d2 = 0 or (0 <= atol and d2 <= atol^2))',
+    'np.linalg.norm / np.isclose(d, 0, atol) decide d == 0 or d <= atol; modelled on squares (d2 = 0 or (0 <= atol and d2 <= atol^2)); '
+    'on the dyadic grid sqrt is monotone and separated by >= 2^-33 relative, so the comparison is exact also at |d| = atol',
+    'the default tolerance uc.set_in_units(0.01, "angstrom") is the double 0.01 (atomman working units: angstrom = 1); it is a '
+    'constant of the driver and, independently, of the oracle',
     'numpy fancy indexing arr[index] and deepcopy copy the selected rows (modelled by gather)',
     'kwargs values are given in the dtype and trailing shape of the property (numpy casting/broadcasting of the assignment '
     'view[prop][-1] = value is not modelled)',
@@ -170,8 +181,14 @@ def _gen_system(rng, natoms=None):
     if rng.random() < 0.3:
         old = rng.sample(range(0, 40), n)
         old_first = rng.random() < 0.5
+    # per-type masses: absent, or one (possibly missing) value for each of the first types
+    masses = None
+    ntyp = max(len(symbols), max(atype))
+    if rng.random() < 0.45:
+        masses = [None if rng.random() < 0.2 else cm.dyadic(rng, 1, 200, 2) for _ in range(rng.randint(1, ntyp))]
     return {'cell': kind, 'vects': vects, 'origin': origin, 'pbc': [rng.random() < 0.7 for _ in range(3)],
-            'symbols': symbols, 'atype': atype, 'pos': pos, 'props': props, 'old_id': old, 'old_first': old_first}
+            'symbols': symbols, 'masses': masses, 'atype': atype, 'pos': pos, 'props': props, 'old_id': old,
+            'old_first': old_first}
 
 
 _DT = {'float': float, 'int': int, 'bool': bool}
@@ -190,7 +207,9 @@ def _mk_system(d):
         kw['old_id'] = np.array(d['old_id'], dtype=int)
     box = am.Box(vects=np.array(d['vects'], dtype=float), origin=np.array(d['origin'], dtype=float))
     atoms = am.Atoms(atype=np.array(d['atype'], dtype=int), pos=np.array(d['pos'], dtype=float), **kw)
-    return am.System(atoms=atoms, box=box, pbc=tuple(d['pbc']), symbols=list(d['symbols']))
+    masses = d.get('masses')
+    return am.System(atoms=atoms, box=box, pbc=tuple(d['pbc']), symbols=list(d['symbols']),
+                     masses=None if masses is None else list(masses))
 
 
 def _keys(system):
@@ -200,7 +219,8 @@ def _keys(system):
 def _snapshot(system):
     """everything observable of a System, as plain data."""
     out = {'vects': system.box.vects.tolist(), 'origin': system.box.origin.tolist(),
-           'pbc': [bool(b) for b in system.pbc], 'symbols': list(system.symbols), 'keys': list(system.atoms_prop())}
+           'pbc': [bool(b) for b in system.pbc], 'symbols': list(system.symbols), 'masses': list(system.masses),
+           'keys': list(system.atoms_prop())}
     for k in system.atoms_prop():
         a = system.atoms.view[k]
         out['p:' + k] = (str(a.dtype), list(a.shape), a.ravel().tolist())
@@ -214,7 +234,10 @@ def _dump(system):
     widths = [int(np.prod(system.atoms.view[k].shape[1:], dtype=int)) for k in keys]
     hasold = 'old_id' in system.atoms_prop()
     parts = [cm.frs(system.box.vects), cm.frs(system.box.origin)] + ['1' if b else '0' for b in system.pbc]
-    parts += [str(len(system.symbols)), str(len(keys))]
+    parts += [str(len(system.symbols)), str(len(system.masses))]
+    for m in system.masses:
+        parts += ['0 0'] if m is None else ['1 ' + cm.fr(float(m))]
+    parts += [str(len(keys))]
     for k, w in zip(keys, widths):
         parts += [k, str(w)]
     parts += ['1' if hasold else '0', str(system.natoms)]
@@ -240,6 +263,8 @@ def _parse_dump(text):
     box = [Fraction(nx()) for _ in range(12)]
     pbc = [nx() for _ in range(3)]
     nsym = int(nx())
+    nm = int(nx())
+    masses = [(nx(), Fraction(nx())) for _ in range(nm)]
     nk = int(nx())
     keys = [(nx(), int(nx())) for _ in range(nk)]
     hasold = nx() == '1'
@@ -254,7 +279,7 @@ def _parse_dump(text):
     rest = list(it)
     if rest:
         raise ValueError('trailing tokens in dump')
-    return {'box': box, 'pbc': pbc, 'nsym': nsym, 'keys': keys, 'hasold': hasold, 'atoms': atoms}
+    return {'box': box, 'pbc': pbc, 'nsym': nsym, 'masses': masses, 'keys': keys, 'hasold': hasold, 'atoms': atoms}
 
 
 def _same_dump(impl_text, model_text, loose_last):
@@ -310,8 +335,86 @@ def _gen_kwargs(rng, system, fn):
     return kw
 
 
-def _atol_choice(rng):
-    return rng.choice([None, None, None, 0.0625, 0.0625, 0.25, 1.0, 0.0, -0.125])
+# offset directions with an exact integer length: single axes, face diagonals (3,4,0)->5, body
+# diagonals (1,2,2)->3, (2,3,6)->7, (1,4,8)->9 — so |offset| is a dyadic number and `|d| <= atol`
+# is decided exactly at the boundary
+OFF_DIRS = [((1, 0, 0), 1), ((0, 1, 0), 1), ((0, 0, 1), 1), ((3, 4, 0), 5), ((0, 3, 4), 5), ((4, 0, 3), 5),
+            ((1, 2, 2), 3), ((2, 2, 1), 3), ((2, 3, 6), 7), ((6, 2, 3), 7), ((1, 4, 8), 9)]
+EPS12 = Fraction(1, 4096)
+ATOL_TYPES = ('float', 'int', 'np.float64', 'np.float32', 'np.int64')
+
+
+def _gen_offset(rng, kinds=('on', 'axis', 'diag2', 'diag3')):
+    """(offset (Fractions), its exact length, label).  The length is independent of the tolerance:
+    from 2^-12 (far inside the default 0.01) over 2^-7 / 2^-6 (the two sides of the default) to 1/2."""
+    kind = rng.choice(kinds)
+    if kind == 'on':
+        return [Fraction(0)] * 3, Fraction(0), 'on-site'
+    pool = [d for d in OFF_DIRS if {'axis': d[1] == 1, 'diag2': d[1] == 5, 'diag3': d[1] in (3, 7, 9)}[kind]]
+    d, nrm = rng.choice(pool)
+    u = Fraction(1, 2 ** rng.choice([12, 11, 10, 10, 9, 9, 8, 8, 7, 7, 6, 6, 5, 4, 3, 2, 1]))
+    while nrm * u > 1:
+        u /= 2
+    off = [Fraction(c * rng.choice([-1, 1])) * u for c in d]
+    return off, nrm * u, kind
+
+
+def _atol_candidates(m):
+    """tolerances around an offset of exact length `m` (None = default): [(value, label)]."""
+    if m == 0:
+        return [(None, 'default'), (0, 'zero'), (1e-12, 'tiny'), (0.0625, 'above'), (1.0, 'above'), (-0.125, 'negative'),
+                (100.0, 'huge')]
+    return [(None, 'default'), (0, 'zero'), (1e-12, 'tiny'), (float(m), 'tie'), (float(m - EPS12), 'just-below'),
+            (float(m + EPS12), 'just-above'), (float(m / 2), 'below'), (float(2 * m), 'above'), (float(-m), 'negative'),
+            (100.0, 'huge')]
+
+
+def _atol_types(v):
+    """the Python/numpy types an explicit tolerance of value `v` can be given in without changing it."""
+    np = _np()
+    out = ['float', 'np.float64']
+    if float(v) == int(v):
+        out += ['int', 'np.int64']
+    if float(np.float32(v)) == float(v):
+        out.append('np.float32')
+    return out
+
+
+def _gen_atol(rng, m):
+    """(value or None, type tag, label) for an offset of exact length m."""
+    cands = _atol_candidates(m)
+    v, label = rng.choice(cands + [cands[0]] * 3)          # the default keeps ~1/3 of the cases
+    if v is None:
+        return None, 'float', label
+    return v, rng.choice(_atol_types(v)), label
+
+
+def _atol_obj(op):
+    """the tolerance object handed to the implementation."""
+    np = _np()
+    v = op['atol']
+    if v is None:
+        return None
+    t = op.get('atol_type', 'float')
+    return {'float': lambda: float(v), 'int': lambda: int(v), 'np.float64': lambda: np.float64(v),
+            'np.float32': lambda: np.float32(v), 'np.int64': lambda: np.int64(int(v))}[t]()
+
+
+def _atol_frac(op):
+    """the effective tolerance the documentation promises: the default only for None."""
+    return Fraction(DEFAULT_ATOL) if op['atol'] is None else Fraction(float(op['atol']))
+
+
+def _pos_arg(V, O, cart, scale):
+    """the `pos` argument (floats) for an exact Cartesian position; box-relative if `scale`."""
+    if scale:
+        return [float(x) for x in _vecmat([c - o for c, o in zip(cart, O)], _inv(V))]
+    return [float(x) for x in cart]
+
+
+def _rel_exact(V, O, cart):
+    rel = _vecmat([c - o for c, o in zip(cart, O)], _inv(V))
+    return all(Fraction(float(x)) == x and _is_dyadic(x) for x in rel)
 
 
 def _gen_op(rng, system):
@@ -322,23 +425,15 @@ def _gen_op(rng, system):
     fn = rng.choice(['vacancy', 'vacancy', 'interstitial', 'interstitial', 'substitutional', 'substitutional',
                      'dumbbell', 'dumbbell'])
     op = {'fn': fn, 'via': rng.choice(['direct', 'point']), 'ptd_type': FN_TYPE[fn], 'pos': None, 'ptd_id': None,
-          'db_vect': None, 'scale': rng.random() < 0.4, 'atol': _atol_choice(rng), 'kw': _gen_kwargs(rng, system, fn),
-          'note': []}
-    atol_eff = DEFAULT_ATOL if op['atol'] is None else op['atol']
+          'db_vect': None, 'scale': rng.random() < 0.4, 'atol': None, 'atol_type': 'float',
+          'kw': _gen_kwargs(rng, system, fn), 'positional': rng.random() < 0.15, 'note': []}
+    # without a position the tolerance is irrelevant: any value must be accepted and ignored
+    op['atol'], op['atol_type'], _ = _gen_atol(rng, Fraction(0))
     targets = []
 
     def site_pos(i):
-        nonlocal atol_eff
         base = [Fraction(x) for x in system.atoms.pos[i].tolist()]
         targets.append(i)
-        if n >= 2 and rng.random() < 0.12:
-            # ambiguous on purpose: a tolerance that also reaches another atom
-            j = rng.choice([q for q in range(n) if q != i])
-            st = {'pbc': [bool(b) for b in system.pbc], 'vects': V}
-            d = float(_d2(st, base, [Fraction(x) for x in system.atoms.pos[j].tolist()])) ** 0.5
-            if d > 0:
-                op['atol'] = atol_eff = 1.25 * d
-                op['note'].append('ambiguous')
         shift = [0, 0, 0]
         r = rng.random()
         if r < 0.35:
@@ -348,29 +443,25 @@ def _gen_op(rng, system):
             shift = [rng.choice([-2, 0, 2]) for _ in range(3)]
             op['note'].append('image2')
         base = [b + s for b, s in zip(base, _vecmat(shift, V))]
-        r = rng.random()
-        off = [Fraction(0)] * 3
-        if r < 0.12 and atol_eff > 0 and _is_dyadic(atol_eff):
-            u = Fraction(atol_eff) / 5
-            off = rng.choice([[3 * u, 4 * u, 0], [0, -4 * u, 3 * u], [4 * u, 0, -3 * u]])
-            op['note'].append('tie')
-        elif r < 0.27:
-            off = [Fraction(atol_eff) / 2, 0, 0]
-            rng.shuffle(off)
-            op['note'].append('inside')
-        elif r < 0.42:
-            off = [Fraction(atol_eff) * 3 / 2, 0, 0]
-            rng.shuffle(off)
-            op['note'].append('outside')
+        off, m, label = _gen_offset(rng)
+        op['note'].append('offset:' + label)
+        op['atol'], op['atol_type'], tl = _gen_atol(rng, m)
+        op['note'].append('atol:' + tl)
+        if n >= 2 and rng.random() < 0.12:
+            # ambiguous on purpose: a tolerance that also reaches another atom
+            j = rng.choice([q for q in range(n) if q != i])
+            st = {'pbc': [bool(b) for b in system.pbc], 'vects': V}
+            d = float(_d2(st, [Fraction(x) for x in system.atoms.pos[i].tolist()],
+                          [Fraction(x) for x in system.atoms.pos[j].tolist()])) ** 0.5
+            if d > 0:
+                op['atol'], op['atol_type'] = 1.25 * d + float(m), rng.choice(['float', 'np.float64'])
+                op['note'].append('ambiguous')
         cart = [b + o for b, o in zip(base, off)]
-        if op['scale']:
-            rel = _vecmat([c - o for c, o in zip(cart, O)], _inv(V))
-            return [float(x) for x in rel]
-        return [float(x) for x in cart]
+        return _pos_arg(V, O, cart, op['scale'])
 
     if fn == 'interstitial':
         r = rng.random()
-        if r < 0.3:
+        if r < 0.4:
             op['pos'] = site_pos(rng.randrange(n))
             op['note'].append('near-atom')
         else:
@@ -383,6 +474,8 @@ def _gen_op(rng, system):
         mode = rng.choice(['idx'] * 7 + ['pos'] * 10 + ['both', 'neither'])
         if mode in ('idx', 'both'):
             op['ptd_id'] = rng.randint(-n - 2, n + 1)
+            if rng.random() < 0.2:
+                op['ptd_np'] = True                      # the index as a numpy integer
             if -n <= op['ptd_id'] < n:
                 targets.append(op['ptd_id'] % n)
         if mode in ('pos', 'both'):
@@ -396,6 +489,8 @@ def _gen_op(rng, system):
             op['db_vect'] = [cm.dyadic(rng, -0.25, 0.25, 5) for _ in range(3)]
         else:
             op['db_vect'] = [cm.dyadic(rng, -1, 1, 3) for _ in range(3)]
+    if op['via'] == 'point' and fn == 'vacancy' and rng.random() < 0.25:
+        op['omit_type'] = True                           # ptd_type defaults to 'v'
     if op['via'] == 'point' and rng.random() < 0.12:
         bad = rng.choice(['v+db', 'v+kw', 'i+ptd', 'i+db', 's+db', 'badtype'])
         op['note'].append('dispatch:' + bad)
@@ -411,7 +506,44 @@ def _gen_op(rng, system):
             op['db_vect'] = [0.25, 0.0, 0.0]
         elif bad == 'badtype':
             op['ptd_type'] = rng.choice(['x', 'V', 'vac', ''])
+            op.pop('omit_type', None)
     return op
+
+
+def _sweep_ops(rng, system, noffsets):
+    """The tolerance dimension, systematically, on ONE system (each op is an independent request):
+    every generator, direct and through point(), the site seen directly and through a periodic image,
+    offsets on-site / along one axis / along face and body diagonals, and for each offset EVERY
+    tolerance candidate (None, 0, 1e-12, just below / exactly / just above the offset, half, double,
+    negative, huge) in a random admissible type."""
+    n = system.natoms
+    V = [[Fraction(x) for x in r] for r in system.box.vects.tolist()]
+    O = [Fraction(x) for x in system.box.origin.tolist()]
+    pbc = [bool(b) for b in system.pbc]
+    ops = []
+    for fn in ('vacancy', 'interstitial', 'substitutional', 'dumbbell'):
+        offs = [_gen_offset(rng, kinds=(k,)) for k in ('on', 'axis', 'diag2', 'diag3')]
+        rng.shuffle(offs)
+        for off, m, label in offs[:noffsets] if noffsets < 4 else offs:
+            i = rng.randrange(n)
+            base = [Fraction(x) for x in system.atoms.pos[i].tolist()]
+            shift = [rng.choice([-1, 0, 1]) if pb else 0 for pb in pbc] if rng.random() < 0.5 else [0, 0, 0]
+            cart = [b + s + o for b, s, o in zip(base, _vecmat(shift, V), off)]
+            scale = rng.random() < 0.4 and _rel_exact(V, O, cart)
+            for v, tl in _atol_candidates(m):
+                op = {'fn': fn, 'via': rng.choice(['direct', 'point']), 'ptd_type': FN_TYPE[fn],
+                      'pos': _pos_arg(V, O, cart, scale), 'ptd_id': None, 'db_vect': None, 'scale': scale, 'atol': v,
+                      'atol_type': 'float' if v is None else rng.choice(_atol_types(v)), 'kw': {},
+                      'positional': rng.random() < 0.15,
+                      'note': ['sweep', 'offset:' + label, 'atol:' + tl] + (['image'] if any(shift) else [])}
+                if fn == 'substitutional':
+                    op['kw']['atype'] = rng.choice([t for t in (1, 2, 3, 4) if t != int(system.atoms.atype[i])])
+                if fn == 'dumbbell':
+                    op['db_vect'] = [0.125, -0.25, 0.0]
+                    if scale:
+                        op['db_vect'] = [0.03125, 0.0, -0.0625]
+                ops.append(op)
+    return ops
 
 
 def _kw_values(op):
@@ -445,18 +577,41 @@ def _call(op, system):
         elif style == 'intarray':
             pos = np.array([int(x) for x in pos])
     db = None if op['db_vect'] is None else np.array(op['db_vect'], dtype=float)
+    atol = _atol_obj(op)
+    ptd = op['ptd_id']
+    if ptd is not None and op.get('ptd_np'):
+        ptd = np.int64(ptd)
+    sc = op['scale']
     try:
-        if op['via'] == 'point':
-            r = D.point(system, op['ptd_type'], pos=pos, ptd_id=op['ptd_id'], db_vect=db, scale=op['scale'],
-                        atol=op['atol'], **kw)
+        if op.get('positional'):
+            # the documented parameter order is part of the interface
+            if op['via'] == 'point':
+                r = D.point(system, op['ptd_type'], pos, ptd, db, sc, atol, **kw)
+            elif op['fn'] == 'vacancy':
+                r = D.vacancy(system, pos, ptd, sc, atol)
+            elif op['fn'] == 'interstitial':
+                r = D.interstitial(system, pos, sc, atol, **kw)
+            elif op['fn'] == 'substitutional':
+                if 'atype' in kw:
+                    kw2 = {k: v for k, v in kw.items() if k != 'atype'}
+                    r = D.substitutional(system, pos, ptd, kw['atype'], sc, atol, **kw2)
+                else:
+                    r = D.substitutional(system, pos, ptd, scale=sc, atol=atol, **kw)
+            else:
+                r = D.dumbbell(system, pos, ptd, db, sc, atol, **kw)
+        elif op['via'] == 'point':
+            if op.get('omit_type') and op['ptd_type'] == 'v':
+                r = D.point(system, pos=pos, ptd_id=ptd, db_vect=db, scale=sc, atol=atol, **kw)
+            else:
+                r = D.point(system, op['ptd_type'], pos=pos, ptd_id=ptd, db_vect=db, scale=sc, atol=atol, **kw)
         elif op['fn'] == 'vacancy':
-            r = D.vacancy(system, pos=pos, ptd_id=op['ptd_id'], scale=op['scale'], atol=op['atol'])
+            r = D.vacancy(system, pos=pos, ptd_id=ptd, scale=sc, atol=atol)
         elif op['fn'] == 'interstitial':
-            r = D.interstitial(system, pos, scale=op['scale'], atol=op['atol'], **kw)
+            r = D.interstitial(system, pos, scale=sc, atol=atol, **kw)
         elif op['fn'] == 'substitutional':
-            r = D.substitutional(system, pos=pos, ptd_id=op['ptd_id'], scale=op['scale'], atol=op['atol'], **kw)
+            r = D.substitutional(system, pos=pos, ptd_id=ptd, scale=sc, atol=atol, **kw)
         else:
-            r = D.dumbbell(system, pos=pos, ptd_id=op['ptd_id'], db_vect=db, scale=op['scale'], atol=op['atol'], **kw)
+            r = D.dumbbell(system, pos=pos, ptd_id=ptd, db_vect=db, scale=sc, atol=atol, **kw)
         return ('ok', r)
     except ValueError as e:
         return ('err', 'value', f'{type(e).__name__}: {e}')
@@ -476,10 +631,9 @@ def _v3(x):
 
 def _op_line(op):
     name = ('point:' + op['ptd_type']) if op['via'] == 'point' else op['fn']
-    atol = DEFAULT_ATOL if op['atol'] is None else op['atol']
     kw = op['kw']
     parts = ['op', name, _v3(op['pos']), '0 0' if op['ptd_id'] is None else f"1 {op['ptd_id']}", _v3(op['db_vect']),
-             '1' if op['scale'] else '0', cm.fr(atol),
+             '1' if op['scale'] else '0', '0 0' if op['atol'] is None else '1 ' + cm.fr(float(op['atol'])),
              f"1 {kw['atype']}" if 'atype' in kw else '0 0', f"1 {kw['old_id']}" if 'old_id' in kw else '0 0']
     extra = [(k, v) for k, v in kw.items() if k not in ('atype', 'old_id')]
     parts.append(str(len(extra)))
@@ -503,7 +657,8 @@ def _state(system):
                      'old': int(v['old_id'][i]) if 'old_id' in v else None})
     return {'vects': [[Fraction(x) for x in r] for r in system.box.vects.tolist()],
             'origin': [Fraction(x) for x in system.box.origin.tolist()],
-            'pbc': [bool(b) for b in system.pbc], 'symbols': list(system.symbols), 'keys': keys,
+            'pbc': [bool(b) for b in system.pbc], 'symbols': list(system.symbols),
+            'masses': [None if m is None else Fraction(float(m)) for m in system.masses], 'keys': keys,
             'hasold': 'old_id' in v, 'rows': rows}
 
 
@@ -527,36 +682,61 @@ def _cart(st, op):
 
 
 def _sites(st, cart, atol):
-    """(matching indices, borderline?)"""
+    """(matching indices, flags) — flags name what would make IEEE evaluation differ from exact
+    arithmetic: 'near-tol' a non-zero distance within 1e-9 of |atol|; 'near-zero' a tiny non-zero
+    distance; 'zero-small-tol' an exact hit judged with a tolerance below 1e-9."""
     at = Fraction(atol)
-    hits, border = [], False
+    hits, flags = [], set()
     for i, r in enumerate(st['rows']):
         m = _d2(st, cart, r['pos'])
         if m == 0 or (at >= 0 and m <= at * at):
             hits.append(i)
-        # borderline for inexact float arithmetic: distance within 1e-9 of |atol| or tiny but non-zero
         dm = float(m) ** 0.5
-        if abs(dm - abs(float(at))) <= 1e-9 * (1 + abs(float(at))) or (0 < dm < 1e-9):
-            border = True
-    return hits, border
+        if m > 0 and abs(dm - abs(float(at))) <= 1e-9 * (1 + abs(float(at))):
+            flags.add('near-tol')
+        if 0 < dm < 1e-9:
+            flags.add('near-zero')
+        if m == 0 and abs(float(at)) < 1e-9:
+            flags.add('zero-small-tol')
+    return hits, flags
 
 
-def _exact_inputs(st, op):
+def _geometry_exact(st, op):
+    """cell, atoms and the requested position / vector lie on the dyadic grid: numpy's and Cython's
+    double arithmetic on them is exact (<= 12 fractional bits, |x| < 2^8)."""
     vals = [x for r in st['vects'] for x in r] + st['origin'] + [x for r in st['rows'] for x in r['pos']]
     if op['pos'] is not None:
         vals += list(op['pos'])
     if op['db_vect'] is not None:
         vals += list(op['db_vect'])
-    if op['atol'] is not None:
-        vals.append(op['atol'])
     return all(_is_dyadic(x) for x in vals)
+
+
+def _loose(st, op):
+    """number of trailing (defect) atoms whose position the implementation computes with rounding:
+    box-relative input in a cell off the dyadic grid, or +-db_vect added to an off-grid position."""
+    if _geometry_exact(st, op):
+        return 0
+    if op['fn'] == 'dumbbell':
+        return 2
+    if op['fn'] == 'interstitial' and op['scale']:
+        return 1
+    return 0
+
+
+def _undecidable(st, op, flags):
+    """is the site search of this request within rounding of a discontinuity?  On the dyadic grid only
+    a NON-dyadic tolerance within 1e-9 of a distance is (a dyadic one — the tie — is decided exactly)."""
+    if _geometry_exact(st, op):
+        return 'near-tol' in flags and not (op['atol'] is not None and _is_dyadic(op['atol']))
+    return bool(flags)
 
 
 def _expected(st, op):
     """('err', class, reason) | ('ok', expected rows, info) | ('skip', why).  Written from the property
     text / docstrings: structural (slices), no index lists."""
     n = len(st['rows'])
-    atol = DEFAULT_ATOL if op['atol'] is None else op['atol']
+    atol = _atol_frac(op)
     kw = op['kw']
     fn = op['fn']
     if op['via'] == 'point':
@@ -569,14 +749,13 @@ def _expected(st, op):
             return ('err', 'assert', 'interstitial takes no ptd_id / db_vect')
         if t == 's' and op['db_vect'] is not None:
             return ('err', 'assert', 'substitutional takes no db_vect')
-    border = False
     if fn == 'interstitial':
         cart = _cart(st, op)
-        hits, border = _sites(st, cart, atol)
-        if border and not _exact_inputs(st, op):
+        hits, flags = _sites(st, cart, atol)
+        if _undecidable(st, op, flags):
             return ('skip', 'borderline distance')
         if hits:
-            return ('err', 'value', f'interstitial site occupied by atom(s) {hits}')
+            return ('err', 'value', f'interstitial site occupied by atom(s) {hits} within atol={float(atol)!r}')
         site = None
     else:
         if op['pos'] is not None and op['ptd_id'] is not None:
@@ -585,13 +764,13 @@ def _expected(st, op):
             return ('err', 'value', 'neither pos nor ptd_id')
         if op['pos'] is not None:
             cart = _cart(st, op)
-            hits, border = _sites(st, cart, atol)
-            if border and not _exact_inputs(st, op):
+            hits, flags = _sites(st, cart, atol)
+            if _undecidable(st, op, flags):
                 return ('skip', 'borderline distance')
             if len(hits) == 0:
-                return ('err', 'value', 'no atom at pos')
+                return ('err', 'value', f'no atom within atol={float(atol)!r} of pos')
             if len(hits) > 1:
-                return ('err', 'value', f'ambiguous site: atoms {hits}')
+                return ('err', 'value', f'ambiguous site: atoms {hits} within atol={float(atol)!r}')
             site = hits[0]
         else:
             i = op['ptd_id']
@@ -659,6 +838,10 @@ def _check_result(st, op, exp, info, res, before, after, system, result):
     if list(res['symbols'][:len(st['symbols'])]) != list(st['symbols']) or \
             any(s is not None for s in res['symbols'][len(st['symbols']):]):
         bad.append((fn + ':symbols', f'{fn}: symbols {st["symbols"]} -> {res["symbols"]}'))
+    if list(res['masses'][:len(st['masses'])]) != list(st['masses']) or \
+            any(m is not None for m in res['masses'][len(st['masses']):]) or len(res['masses']) != len(res['symbols']):
+        bad.append((fn + ':masses', f'{fn}: per-type masses {[None if m is None else float(m) for m in st["masses"]]} -> '
+                    f'{[None if m is None else float(m) for m in res["masses"]]} (symbols {res["symbols"]})'))
     if res['keys'] != st['keys']:
         bad.append((fn + ':keys', f'{fn}: property keys {st["keys"]} -> {res["keys"]}'))
         return bad
@@ -666,7 +849,7 @@ def _check_result(st, op, exp, info, res, before, after, system, result):
         bad.append((fn + ':old_id-missing', f'{fn}: result has no old_id property'))
         return bad
     nd = info['ndefect']
-    loose = op['scale'] and not _exact_inputs(st, op)
+    loose = _loose(st, op) > 0
     for j, (e, g) in enumerate(zip(exp, res['rows'])):
         role = 'other' if j < len(exp) - nd else 'defect'
         if e['atype'] != g['atype']:
@@ -730,7 +913,8 @@ def _sys_desc_of(system):
     """plain-data description (replayable) of a live System."""
     np = _np()
     d = {'vects': system.box.vects.tolist(), 'origin': system.box.origin.tolist(), 'pbc': [bool(b) for b in system.pbc],
-         'symbols': list(system.symbols), 'atype': [int(x) for x in system.atoms.atype], 'pos': system.atoms.pos.tolist(),
+         'symbols': list(system.symbols), 'masses': [None if m is None else float(m) for m in system.masses],
+         'atype': [int(x) for x in system.atoms.atype], 'pos': system.atoms.pos.tolist(),
          'props': {}, 'old_id': None, 'old_first': False}
     for k in system.atoms_prop():
         a = system.atoms.view[k]
@@ -753,6 +937,32 @@ def _nontrivial(op, out):
         not (op['pos'] is not None and op['ptd_id'] is not None)
 
 
+def _corr_op(ctx, system, desc, hist, op, it, sline, lines, checks, dist, label='corr'):
+    """queue one insertion for the model and run it on the implementation."""
+    st = _state(system)
+    before = _snapshot(system)
+    out = _call(op, system)
+    after = _snapshot(system)
+    exp = _expected(st, op)
+    line = _op_line(op)
+    lines.append(line)
+    want = 'ok ' + _dump(out[1]) if out[0] == 'ok' else 'err:' + out[1]
+    loose = _loose(st, op)
+    exempt = exp[0] == 'skip'
+    checks.append(('op', desc, list(hist), want, (loose, exempt, before != after, out), it))
+    kind = op['fn'] + ('/point' if op['via'] == 'point' else '') + ':' + ('ok' if out[0] == 'ok' else out[1])
+    dist[kind] = dist.get(kind, 0) + 1
+    tl = [x for x in op['note'] if x.startswith('atol:')]
+    if tl and op['pos'] is not None:
+        key = tl[0] + '/' + (op.get('atol_type', 'float') if op['atol'] is not None else 'None')
+        dist[key] = dist.get(key, 0) + 1
+    ctx.stats.case(label + ':' + kind, (sline, line), nontrivial=_nontrivial(op, out),
+                   sample={'system': {k: desc.get(k) for k in ('cell', 'vects', 'origin', 'pbc', 'atype')},
+                           'op': {k: v for k, v in op.items() if k != 'kw'}, 'kwargs': sorted(op['kw']),
+                           'outcome': out[0] if out[0] == 'ok' else out[1]})
+    return out, loose
+
+
 def correspond(ctx):
     rng = ctx.rng
     nsys = ctx.n(600, 6000)
@@ -768,30 +978,8 @@ def correspond(ctx):
         hist = []
         for k in range(nops):
             op = _gen_op(rng, system)
-            st = _state(system)
-            before = _snapshot(system)
-            out = _call(op, system)
-            after = _snapshot(system)
-            exp = _expected(st, op)
             hist.append(op)
-            line = _op_line(op)
-            lines.append(line)
-            if out[0] == 'ok':
-                want = 'ok ' + _dump(out[1])
-            else:
-                want = 'err:' + out[1]
-            loose = 0
-            if op['scale'] and not _exact_inputs(st, op):
-                loose = {'interstitial': 1, 'dumbbell': 2}.get(op['fn'], 0)
-            exempt = exp[0] == 'skip'
-            checks.append(('op', desc, list(hist), want, (loose, exempt, before != after, out), it))
-            kind = op['fn'] + ('/point' if op['via'] == 'point' else '') + ':' + \
-                ('ok' if out[0] == 'ok' else out[1])
-            dist[kind] = dist.get(kind, 0) + 1
-            ctx.stats.case('corr:' + kind, (sline, line), nontrivial=_nontrivial(op, out),
-                           sample={'system': {k: desc[k] for k in ('cell', 'vects', 'origin', 'pbc', 'atype')},
-                                   'op': {k: v for k, v in op.items() if k != 'kw'}, 'kwargs': sorted(op['kw']),
-                                   'outcome': out[0] if out[0] == 'ok' else out[1]})
+            out, loose = _corr_op(ctx, system, desc, hist, op, it, sline, lines, checks, dist)
             if out[0] == 'ok':
                 system = out[1]
                 if loose:
@@ -799,6 +987,17 @@ def correspond(ctx):
                     # implementation's rounded state to the driver so that later steps start equal
                     lines.append('sys ' + _dump(system))
                     checks.append(('sys', desc, None, 'ok ' + _dump(system), None, it))
+    # the tolerance dimension, systematically: independent requests on one system each
+    it = nsys
+    for q in range(ctx.n(10, 80)):
+        desc = _gen_system(rng, natoms=rng.choice([1, 2, 3, 4, 5, 6]))
+        system = _mk_system(desc)
+        sline = 'sys ' + _dump(system)
+        for op in _sweep_ops(rng, system, ctx.n(2, 4)):
+            it += 1
+            lines.append(sline)
+            checks.append(('sys', desc, None, 'ok ' + _dump(system), None, it))
+            _corr_op(ctx, system, desc, [op], op, it, sline, lines, checks, dist, label='corr-sweep')
     outs = ctx.driver.ask_many(lines)
     ctx.extra['correspondence_outcomes'] = dist
     dead = set()
@@ -853,15 +1052,15 @@ def _selection_equivalence(ctx, system, op, exp, result, desc, hist):
     site = exp[2]['site']
     st = _state(system)
     n = len(st['rows'])
-    atol = DEFAULT_ATOL if op['atol'] is None else op['atol']
+    atol = _atol_frac(op)
     base = st['rows'][site]['pos']
     variants = []
     # by index, positive and negative
     variants.append(('index', dict(op, pos=None, ptd_id=site)))
     variants.append(('negative index', dict(op, pos=None, ptd_id=site - n)))
     # unique at its own position?  (no other atom within atol of it, in the oracle's exact arithmetic)
-    hits, border = _sites(st, base, atol)
-    if hits == [site] and (not border or _exact_inputs(st, dict(op, pos=[float(x) for x in base]))):
+    hits, flags = _sites(st, base, atol)
+    if hits == [site] and not _undecidable(st, dict(op, pos=[float(x) for x in base]), flags):
         variants.append(('Cartesian pos', dict(op, pos=[float(x) for x in base], ptd_id=None, scale=False,
                                                db_vect=_db_as(op, st, False))))
         shift = [ctx.rng.choice([-1, 0, 1]) if pb else 0 for pb in st['pbc']]
@@ -1005,6 +1204,16 @@ def search(ctx, broken):
             return _gen_op(rng, system)
         _run_history(ctx, desc, None, 'random', gen=gen, nops=rng.choice([1, 2, 3, 4]))
     _special_cases(ctx, rng)
+    _tolerance_sweep(ctx, rng, broken)
+
+
+def _tolerance_sweep(ctx, rng, broken):
+    """every tolerance candidate around every kind of offset, judged by the oracle (see _sweep_ops)."""
+    for q in range(ctx.n(10, 80) * (2 if broken else 1)):
+        desc = _gen_system(rng, natoms=rng.choice([1, 2, 3, 4, 5, 6]))
+        system = _mk_system(desc)
+        for op in _sweep_ops(rng, system, ctx.n(2, 4)):
+            _run_history(ctx, desc, [op], 'tol-sweep')
 
 
 def replay(ctx, payload):
@@ -1043,7 +1252,9 @@ MANIFEST = {
             'generators change exactly the documented atoms (others identical, in order; defect atoms last with the requested '
             'values), the cell is kept, old_id is the index in the input and composes over ANY history of insertions '
             '(induction), selection by Cartesian / box-relative position (also through an adjacent periodic image) equals '
-            'selection by index, and each refusal. Tied to the code by a differential run of short insertion histories on '
+            'selection by index, each refusal, the tolerance rule (atol=None and only None is the default, the dispatcher passes it '
+            'through, closed ball, monotone, zero/negative tolerance = exact hit only), symbols and per-type masses kept and '
+            'padded. Tied to the code by a differential run of short insertion histories on '
             'random systems; the clauses are evaluated on the real code by an independent Fraction oracle.',
     'note': 'Trusted: Lean kernel + propext/Classical.choice/Quot.sound; the correspondence harness; numpy indexing and '
             'assignment. Images beyond the adjacent cells are outside dvect\'s candidate set (refused by model and code alike). '
